@@ -652,6 +652,37 @@ class Gen:
         ws = self.r("ws")
         nm = 0
         pending: list[str] = []
+        # script: one nested matcher meets the very same child object twice, with different values captured outside
+        # it (first a miss, then -- on a derived tree that keeps that child -- a hit)
+        for i in range(r.choice([0, 0, 1])):
+            found = None
+            for hn, root in w.nodes.items():
+                for x in RW.walk(root)[:12]:
+                    kids = [f for f in U.CHILD_FIELDS[RW.cname(x)] if f.kind in ("opt", "child") and is_node(getattr(x, f.name))]
+                    for b in kids:
+                        sib = getattr(x, b.name)
+                        subs = [g for g in U.CHILD_FIELDS[RW.cname(sib)] if g.kind in ("opt", "child") and is_node(getattr(sib, g.name))]
+                        others = [a for a in kids if a.name != b.name]
+                        if subs and others and x is root:
+                            found = (hn, x, r.choice(others), b, r.choice(subs))
+                            break
+                    if found:
+                        break
+                if found:
+                    break
+            if not found:
+                break
+            hn, x, a, b, g = found
+            cap = self.newcap()
+            ast = {"cls": [RW.cname(x)], "fields": [[a.name, {"k": "exists", "cap": cap}], [b.name, {"k": "val", "v": {"t": "node", "p": {"cls": "*", "fields": [[g.name, {"k": "val", "v": {"t": "var", "name": cap}}]]}}, "cap": self.newcap()}]]}
+            nm += 1
+            do({"op": "compile", "how": "from_pattern", "text": render(ast, ws), "ast": ast, "out": f"m{nm}"})
+            do({"op": "match", "m": f"m{nm}", "n": {"h": hn, "path": []}})
+            inner = getattr(getattr(x, b.name), g.name)
+            do({"op": "derive", "n": {"h": hn, "path": []}, "ch": {a.name: RW.spec_of(inner)}, "out": f"nested{i}"})
+            if f"nested{i}" in w.nodes:
+                do({"op": "match", "m": f"m{nm}", "n": {"h": f"nested{i}", "path": []}})
+                self.w.stats.probes["same_child_other_capture"] += 1
         for _ in range(cfg["nops"]):
             kind = r.choice(cfg["mix"])
             names = list(w.nodes)
